@@ -58,7 +58,7 @@ def batch(ctx, n, **opts):
             vals += [(v, "generated"), (partial(v, ctx.rnd), "partial")]
         ps = gen_value.perturb(w, ctx.rnd)
         vals += [(x, "perturbed") for x in ctx.rnd.sample(ps, min(ctx.n(6, 14), len(ps)))]
-        vals += [(ellipsize(w, ctx.rnd), "ellipsis"), (ellipsize(partial(w, ctx.rnd), ctx.rnd), "ellipsis")]
+        vals += [(ellipsize(w, ctx.rnd), "ellipsis"), (ellipsize(partial(w, ctx.rnd), ctx.rnd), "ellipsis"), (..., "ellipsis")]
         try:
             vals += [(unconvertible(w, ctx.rnd), "unconvertible")]
         except Exception:
